@@ -504,4 +504,285 @@ theorem split_inv (rows : List Row) :
       | tail t => exact longestWithTail_ge hr)
   simpa [split] using this
 
+/-! ### the selection in `handle_decision_tree` -/
+
+theorem findList_some {L : Nat} {cs : Cases} {c : LCase × List Nat} (h : findList L cs = some c) :
+    c.1 = .list L ∧ c ∈ cs := by
+  induction cs with
+  | nil => simp [findList] at h
+  | cons x cs ih =>
+    simp only [findList] at h
+    split at h
+    · rename_i e; cases h; exact ⟨e, List.mem_cons_self⟩
+    · obtain ⟨h1, h2⟩ := ih h
+      exact ⟨h1, List.mem_cons_of_mem _ h2⟩
+
+theorem findList_none {L : Nat} {cs : Cases} (h : findList L cs = none) : .list L ∉ keys cs := by
+  induction cs with
+  | nil => simp [keys]
+  | cons x cs ih =>
+    simp only [findList] at h
+    split at h
+    · cases h
+    · rename_i hne
+      simp only [keys, List.map_cons, List.mem_cons, not_or]
+      exact ⟨fun e => hne e.symm, ih h⟩
+
+theorem maxTail_some {l : Cases} {b : LCase × List Nat} (h : maxTail l = some b) :
+    b ∈ l ∧ ∀ c ∈ l, tailLen c.1 ≤ tailLen b.1 := by
+  induction l generalizing b with
+  | nil => simp [maxTail] at h
+  | cons x l ih =>
+    simp only [maxTail] at h
+    cases hm : maxTail l with
+    | none =>
+      rw [hm] at h
+      simp only [Option.some.injEq] at h; subst h
+      have : l = [] := by
+        cases l with
+        | nil => rfl
+        | cons y l' =>
+          simp only [maxTail] at hm
+          split at hm
+          · split at hm <;> cases hm
+          · cases hm
+      subst this
+      exact ⟨List.mem_cons_self, by intro c hc; simp at hc; subst hc; exact Nat.le_refl _⟩
+    | some b0 =>
+      rw [hm] at h
+      obtain ⟨h1, h2⟩ := ih hm
+      simp only at h
+      split at h
+      · rename_i hgt
+        cases h
+        refine ⟨List.mem_cons_self, ?_⟩
+        intro c hc
+        simp only [List.mem_cons] at hc
+        rcases hc with e | hc
+        · subst e; exact Nat.le_refl _
+        · have := h2 c hc; omega
+      · rename_i hgt
+        cases h
+        refine ⟨List.mem_cons_of_mem _ h1, ?_⟩
+        intro c hc
+        simp only [List.mem_cons] at hc
+        rcases hc with e | hc
+        · subst e; omega
+        · exact h2 c hc
+
+theorem maxTail_none {l : Cases} (h : maxTail l = none) : l = [] := by
+  cases l with
+  | nil => rfl
+  | cons y l' =>
+    simp only [maxTail] at h
+    split at h
+    · split at h <;> cases h
+    · cases h
+
+def lpStep (longest : Nat) (c : LCase × List Nat) : Nat :=
+  match c.1 with
+  | .list i => if longest < i then i else longest
+  | .tail i => if longest < i then i - 1 else longest
+  | .wild => longest
+
+theorem longestPattern_eq (cs : Cases) : longestPattern cs = cs.foldl lpStep 0 := rfl
+
+theorem lpStep_ge (acc : Nat) (c : LCase × List Nat) : acc ≤ lpStep acc c := by
+  obtain ⟨c0, rs⟩ := c
+  cases c0 <;> simp only [lpStep] <;> (try split) <;> omega
+
+theorem lpStep_list (acc i : Nat) (rs : List Nat) : i ≤ lpStep acc (.list i, rs) := by
+  simp only [lpStep]; split <;> omega
+
+theorem lpStep_tail (acc i : Nat) (rs : List Nat) : i - 1 ≤ lpStep acc (.tail i, rs) := by
+  simp only [lpStep]; split <;> omega
+
+theorem foldl_lpStep (cs : Cases) : ∀ acc,
+    acc ≤ cs.foldl lpStep acc ∧
+      ∀ c ∈ keys cs, (∀ i, c = .list i → i ≤ cs.foldl lpStep acc) ∧
+        (∀ i, c = .tail i → i - 1 ≤ cs.foldl lpStep acc) := by
+  induction cs with
+  | nil => intro acc; simp [keys]
+  | cons x cs ih =>
+    intro acc
+    obtain ⟨c0, rs0⟩ := x
+    simp only [List.foldl_cons]
+    obtain ⟨h1, h2⟩ := ih (lpStep acc (c0, rs0))
+    refine ⟨Nat.le_trans (lpStep_ge acc _) h1, ?_⟩
+    intro c hc
+    simp only [keys, List.map_cons, List.mem_cons] at hc
+    rcases hc with e | hc
+    · subst e
+      constructor
+      · intro i e; subst e; exact Nat.le_trans (lpStep_list acc i rs0) h1
+      · intro i e; subst e; exact Nat.le_trans (lpStep_tail acc i rs0) h1
+    · exact h2 c hc
+
+/-- `longest_pattern` dominates every case: `List(i)` by `i`, `ListWithTail(i)` by `i - 1` -/
+theorem longestPattern_ge (cs : Cases) :
+    ∀ c ∈ keys cs, (∀ i, c = .list i → i ≤ longestPattern cs) ∧
+      (∀ i, c = .tail i → i - 1 ≤ longestPattern cs) := by
+  intro c hc
+  rw [longestPattern_eq]
+  exact (foldl_lpStep cs 0).2 c hc
+
+theorem compat_list_admits (rc : LCase) (L : Nat) : compat rc (.list L) = rc.admits L := by
+  cases rc <;> simp [compat, LCase.admits]
+
+theorem isTail_iff (c : LCase) : isTail c = true ↔ ∃ k, c = .tail k := by
+  cases c <;> simp [isTail]
+
+/-- **the fixed dispatch is correct**: a list of length `L` is handled by exactly the rows whose
+list pattern admits length `L`, in source order -/
+theorem dispatchFixed_eq (rows : List Row) (L : Nat) :
+    dispatchFixed rows L = (rows.filter (fun r => r.1.admits L)).map (·.2) := by
+  have inv := split_inv rows
+  have hlist : ∀ i, (LCase.list L, i) ∈ rows → LCase.list L ∈ keys (split rows).2 := by
+    intro i hi; exact inv.ex _ hi _ rfl
+  have htail : ∀ t i, (LCase.tail t, i) ∈ rows → LCase.tail t ∈ keys (split rows).2 := by
+    intro t i hi
+    obtain ⟨m, hm, hle⟩ := longestWithTail_ge hi
+    exact inv.ex _ hi _ (Or.inr ⟨t, m, rfl, hm, Nat.le_refl _, hle⟩)
+  have hLP := longestPattern_ge (split rows).2
+  -- a tail key is an element of the filtered tail cases
+  have htails : ∀ t, LCase.tail t ∈ keys (split rows).2 →
+      ∃ rs, (LCase.tail t, rs) ∈ (split rows).2.filter (fun c => isTail c.1) := by
+    intro t ht
+    simp only [keys, List.mem_map] at ht
+    obtain ⟨⟨c, rs⟩, hm, e⟩ := ht
+    simp only at e; subst e
+    exact ⟨rs, List.mem_filter.mpr ⟨hm, by simp [isTail]⟩⟩
+  simp only [dispatchFixed]
+  split
+  · -- L ≤ longest_pattern
+    rename_i hle
+    cases hf : findList L (split rows).2 with
+    | some c =>
+      try simp only
+      obtain ⟨h1, h2⟩ := findList_some hf
+      obtain ⟨c1, rs⟩ := c
+      simp only at h1; subst h1
+      rw [inv.ent _ _ h2]
+      simp only [sel]
+      congr 1
+      apply List.filter_congr
+      intro r _
+      exact compat_list_admits r.1 L
+    | none =>
+      try simp only
+      have hnl := findList_none hf
+      cases hm : maxTail (((split rows).2.filter (fun c => isTail c.1)).filter (fun c => decide (tailLen c.1 ≤ L))) with
+      | some b =>
+        try simp only
+        obtain ⟨hb1, hb2⟩ := maxTail_some hm
+        obtain ⟨hb3, hb4⟩ := List.mem_filter.mp hb1
+        obtain ⟨hb5, hb6⟩ := List.mem_filter.mp hb3
+        obtain ⟨bc, brs⟩ := b
+        obtain ⟨m, e⟩ := (isTail_iff bc).mp hb6
+        subst e
+        have hb4 : m ≤ L := of_decide_eq_true hb4
+        rw [inv.ent _ _ hb5]
+        simp only [sel]
+        congr 1
+        apply List.filter_congr
+        intro r hr
+        obtain ⟨rc, i⟩ := r
+        cases rc with
+        | wild => simp [compat, LCase.admits]
+        | list n =>
+          simp only [compat, LCase.admits]
+          by_cases e : n = L
+          · subst e; exact absurd (hlist i hr) hnl
+          · simp [e]
+        | tail t =>
+          simp only [compat, LCase.admits]
+          by_cases ht : t ≤ L
+          · obtain ⟨rs, hrs⟩ := htails t (htail t i hr)
+            have := hb2 (LCase.tail t, rs) (List.mem_filter.mpr ⟨hrs, by simp [tailLen, ht]⟩)
+            simp only [tailLen] at this
+            simp [ht, this]
+          · have : ¬ t ≤ m := by omega
+            simp [ht, this]
+      | none =>
+        try simp only
+        have hnil := maxTail_none hm
+        rw [inv.dflt]
+        simp only [wildsOf]
+        congr 1
+        apply List.filter_congr
+        intro r hr
+        obtain ⟨rc, i⟩ := r
+        cases rc with
+        | wild => simp [LCase.admits]
+        | list n =>
+          simp only [LCase.admits]
+          by_cases e : n = L
+          · subst e; exact absurd (hlist i hr) hnl
+          · simp [e]
+        | tail t =>
+          simp only [LCase.admits]
+          by_cases ht : t ≤ L
+          · obtain ⟨rs, hrs⟩ := htails t (htail t i hr)
+            have : (LCase.tail t, rs) ∈ ((split rows).2.filter (fun c => isTail c.1)).filter
+                (fun c => decide (tailLen c.1 ≤ L)) :=
+              List.mem_filter.mpr ⟨hrs, by simp [tailLen, ht]⟩
+            rw [hnil] at this; cases this
+          · simp [ht]
+  · -- L > longest_pattern
+    rename_i hgt
+    have hnl : ∀ i, (LCase.list L, i) ∉ rows := by
+      intro i hi
+      have := (hLP _ (hlist i hi)).1 L rfl
+      omega
+    cases hm : maxTail ((split rows).2.filter (fun c => isTail c.1)) with
+    | some b =>
+      try simp only
+      obtain ⟨hb1, hb2⟩ := maxTail_some hm
+      obtain ⟨hb5, hb6⟩ := List.mem_filter.mp hb1
+      obtain ⟨bc, brs⟩ := b
+      obtain ⟨m, e⟩ := (isTail_iff bc).mp hb6
+      subst e
+      have hmL : m ≤ L := by
+        have := (hLP _ (List.mem_map.mpr ⟨_, hb5, rfl⟩)).2 m rfl
+        omega
+      rw [inv.ent _ _ hb5]
+      simp only [sel]
+      congr 1
+      apply List.filter_congr
+      intro r hr
+      obtain ⟨rc, i⟩ := r
+      cases rc with
+      | wild => simp [compat, LCase.admits]
+      | list n =>
+        simp only [compat, LCase.admits]
+        by_cases e : n = L
+        · subst e; exact absurd hr (hnl i)
+        · simp [e]
+      | tail t =>
+        simp only [compat, LCase.admits]
+        obtain ⟨rs, hrs⟩ := htails t (htail t i hr)
+        have := hb2 (LCase.tail t, rs) hrs
+        simp only [tailLen] at this
+        have : t ≤ L := by omega
+        simp [*]
+    | none =>
+      try simp only
+      have hnil := maxTail_none hm
+      rw [inv.dflt]
+      simp only [wildsOf]
+      congr 1
+      apply List.filter_congr
+      intro r hr
+      obtain ⟨rc, i⟩ := r
+      cases rc with
+      | wild => simp [LCase.admits]
+      | list n =>
+        simp only [LCase.admits]
+        by_cases e : n = L
+        · subst e; exact absurd hr (hnl i)
+        · simp [e]
+      | tail t =>
+        obtain ⟨rs, hrs⟩ := htails t (htail t i hr)
+        rw [hnil] at hrs; cases hrs
+
 end AikenVerif.ListSwitch
